@@ -1,24 +1,72 @@
 (* C01 — Memfs behaves as a tree filesystem for every operation history.
-   PARTIAL.  What is proved here is about the line-by-line mirror (Memfs/Ops.v, Walk.v, WalkOps.v),
-   which the correspondence check holds equal to the real Memfs state-for-state over the bounded
-   universe: the mirror never panics, keeps the tree well-formed (C03), writes / appends / reads
-   exactly the byte-vector model (C06), and a move_p that fails in its validation changes nothing.
-   The refinement of the mirror to an independently written reference tree filesystem
-   (Memfs/Spec.v in DESIGN §7 C01) is not yet a theorem; until then "equal to a plain reference tree
-   filesystem" is carried by the statement's clauses evaluated on the code's own pre/post snapshots
-   (tools/frames.py) and by the mirror comparison. *)
+   Memfs/Spec.v is a plain reference tree filesystem written from the trait documentation: one flat map from absolute
+   paths to nodes and a working directory, no child lists, no separate data index. Memfs/Refine.v proves that the
+   line-by-line mirror of Memfs (three redundant indexes; held equal to the real Memfs state-for-state by the
+   correspondence check) REFINES it for the single-target calls mkfile, write_all, append_all, reads, remove and
+   set_cwd and for the queries: from every state reachable by ANY history of calls (reachable states are well formed
+   and kind-sound: C03 + Memfs/Kinds.v, both proved for every call) each of these calls returns exactly the reference
+   call's value or error kind and leaves exactly the reference call's tree. move_p is specified exactly and proved in
+   Memfs/WfMove.v (C09). PARTIAL: mkdir_p / mkdir_m, symlink, remove_all, copy, chmod and chown are compared with the
+   real code state-for-state and judged on pre/post snapshots, and proved safe (no panic, well formed, kind-sound),
+   but their reference-level specification is not yet a theorem. *)
 From stdpp Require Import gmap.
 From Coq Require Import NArith.
-From RV Require Import Base.Str Path.Helpers Path.Expand Memfs.State Memfs.Ops Memfs.Step Memfs.Wf Memfs.ContentFacts Memfs.MoveFacts.
+From RV Require Import Base.Str Path.Helpers Path.Expand Memfs.State Memfs.Ops Memfs.Step Memfs.Wf Memfs.WfMore Memfs.WfMove
+  Memfs.ContentFacts Memfs.MoveFacts Memfs.Spec Memfs.Refine Memfs.Kinds Macros.Asserts.
 
 Theorem C01_step_no_panic : forall env m o, step env m o <> Panic.
 Proof. exact step_no_panic. Qed.
 Print Assumptions C01_step_no_panic.
 
-Theorem C01_history_keeps_wf_partial : forall env m o m' r, WF m -> is_move o = false -> step env m o = Done (m', r) -> WF m'.
-Proof. exact wf_step_nonmove. Qed.
-Print Assumptions C01_history_keeps_wf_partial.
+(* every state any history reaches is well formed and kind-sound: the hypotheses of the refinement theorems below *)
+Theorem C01_reachable_ok : forall env os m m', WF m -> kinds_ok m -> run_ops env m os = Some m' -> WF m' /\ kinds_ok m'.
+Proof. exact reachable_ok. Qed.
+Print Assumptions C01_reachable_ok.
 
+Theorem C01_initial_ok : WF mfs_init /\ kinds_ok mfs_init.
+Proof. exact (conj wf_init kinds_init). Qed.
+Print Assumptions C01_initial_ok.
+
+(* the refinement, call by call: same tree afterwards, same value / error kind *)
+Theorem C01_mkfile_refines : forall m p, WF m -> kinds_ok m ->
+  let '(m', r) := add m (new_file p) in
+  abs m' = (spec_mkfile (abs m) p def_mode_file def_uid def_gid).1 /\ r = (spec_mkfile (abs m) p def_mode_file def_uid def_gid).2.
+Proof. exact mkfile_refines. Qed.
+Print Assumptions C01_mkfile_refines.
+
+Theorem C01_write_all_refines : forall env m s d p, WF m -> kinds_ok m -> resolve env m s = inl p ->
+  let '(m', r) := write_all_op env m s d in
+  abs m' = (spec_write_all (abs m) p def_mode_file def_uid def_gid d).1 /\ r = (spec_write_all (abs m) p def_mode_file def_uid def_gid d).2.
+Proof. exact write_all_refines. Qed.
+Print Assumptions C01_write_all_refines.
+
+Theorem C01_append_all_refines : forall env m s d p, WF m -> kinds_ok m -> resolve env m s = inl p ->
+  let '(m', r) := append_all_op env m s d in
+  abs m' = (spec_append_all (abs m) p def_mode_file def_uid def_gid d).1 /\ r = (spec_append_all (abs m) p def_mode_file def_uid def_gid d).2.
+Proof. exact append_all_refines. Qed.
+Print Assumptions C01_append_all_refines.
+
+Theorem C01_read_refines : forall env m s p, WF m -> kinds_ok m -> resolve env m s = inl p -> clone_file env m s = spec_read (abs m) p.
+Proof. exact read_refines. Qed.
+Print Assumptions C01_read_refines.
+
+Theorem C01_remove_refines : forall env m s p, WF m -> kinds_ok m -> resolve env m s = inl p ->
+  let '(m', r) := remove_op env m s in abs m' = (spec_remove (abs m) p).1 /\ r = (spec_remove (abs m) p).2.
+Proof. exact remove_refines. Qed.
+Print Assumptions C01_remove_refines.
+
+Theorem C01_set_cwd_refines : forall env m s p, WF m -> kinds_ok m -> resolve env m s = inl p ->
+  let '(m', r) := set_cwd_op env m s in abs m' = (spec_set_cwd (abs m) p).1 /\ r = (spec_set_cwd (abs m) p).2.
+Proof. exact set_cwd_refines. Qed.
+Print Assumptions C01_set_cwd_refines.
+
+Theorem C01_queries_refine : forall m p, kinds_ok m ->
+  bool_decide (is_Some (m_ents m !! p)) = spec_exists (abs m) p /\
+  is_dir_at m p = spec_is_dir (abs m) p /\ is_file_at m p = spec_is_file (abs m) p /\ is_symlink_at m p = spec_is_symlink (abs m) p.
+Proof. exact queries_refine. Qed.
+Print Assumptions C01_queries_refine.
+
+(* "a single-target call that reports failure leaves the tree exactly as it was", for the reference calls themselves *)
 Theorem C01_write_replaces : forall env m s d m' p, WF m -> resolve env m s = inl p ->
   write_all_op env m s d = (m', inl tt) ->
   m_data m' !! p = Some d /\ forall q, q <> p -> m_data m' !! q = m_data m !! q.
